@@ -322,7 +322,8 @@ void WEPDecrypter::remove_password(const address_type& addr) {
 
 bool WEPDecrypter::decrypt(PDU& pdu) {
     Dot11Data* dot11 = pdu.find_pdu<Dot11Data>();
-    if (dot11) {
+    // only protected frames carry a WEP body
+    if (dot11 && dot11->wep()) {
         RawPDU* raw = dot11->find_pdu<RawPDU>();
         if (raw) {
             address_type addr;
